@@ -113,6 +113,18 @@ func (c *Ctx) mapSort(key, elem types.Type) string {
 func structKey(n *types.Named, st *types.Struct) string {
 	if n != nil {
 		o := n.Obj()
+		if n.TypeArgs() != nil && n.TypeArgs().Len() > 0 {
+			// instantiated generic struct: the type arguments are part of the identity
+			var args []string
+			for i := 0; i < n.TypeArgs().Len(); i++ {
+				args = append(args, sortToken(types.TypeString(n.TypeArgs().At(i), func(p *types.Package) string { return p.Name() })))
+			}
+			pk := ""
+			if o.Pkg() != nil {
+				pk = o.Pkg().Name() + "."
+			}
+			return pk + o.Name() + "<" + strings.Join(args, ",") + ">"
+		}
 		if o.Pkg() != nil {
 			if strings.Contains(o.Pkg().Path(), "internal/") && !strings.HasPrefix(o.Pkg().Path(), modPath) {
 				return o.Pkg().Path() + "." + o.Name()
@@ -268,6 +280,9 @@ func (c *Ctx) typeInvariant(v Value) string {
 			return "(and (>= " + v.T + " (- 32768)) (<= " + v.T + " 32767))"
 		case types.Int8:
 			return "(and (>= " + v.T + " (- 128)) (<= " + v.T + " 127))"
+		case types.Float32:
+			// values of type float32 are float32-representable reals
+			return app(c.Fun("isF32", []string{"Real"}, "Bool"), v.T)
 		}
 	case *types.Slice:
 		return "(>= " + c.sliceLen(v) + " 0)"
